@@ -160,6 +160,10 @@ main(void) {
 			lou_free();
 			continue;
 		}
+		if (h_line[0] == 'm') { /* m <n>: move the table image on every n-th arena allocation (0 = off) */
+			_lou_verif_arena_move = atoi(h_line + 1);
+			continue;
+		}
 		if (h_line[0] == 'b') {
 			budget = strtoul(h_line + 1, NULL, 10);
 			continue;
